@@ -77,6 +77,7 @@ func (m c01) roundTrip(c *Ctx, s *SchemaSpec, schema *jsonapi.Schema, t *TypeSpe
 		if !viaDoc {
 			out = jsonapi.MarshalResource(res, prefix, fields[t.Name], relData)
 			got, err = jsonapi.UnmarshalResource(out, schema)
+			keptPayloadCheck(c, "MarshalResource", out)
 			return
 		}
 		url := &jsonapi.URL{Fragments: []string{t.Name, "x"}, ResType: t.Name, ResID: "x", Params: &jsonapi.Params{Fields: fields}}
